@@ -67,6 +67,35 @@ Theorem C05_deny_before_change_update : forall pton4 pton6, pton_lengths pton4 p
 Proof. intros p4 p6 [A B]. exact (deny_before_change_update p4 p6 A B). Qed.
 Print Assumptions C05_deny_before_change_update.
 
+(* the same for EVERY configured action of sqlite_update (delete_data, delete_value, set_value,
+   set_json/text_value_from_request_body: one store operation each), also with an unparsable
+   request body and with a failing data store: a non-member gets forbidden (or the data source's
+   error) and nothing is stored; a store operation happens only for members; and every outcome
+   other than OK leaves the store untouched *)
+Theorem C05_deny_before_change_update_faults : forall pton4 pton6, pton_lengths pton4 pton6 ->
+  forall bad_body store_fault key cfgl g client, restricted key cfgl = true ->
+  (forall st, update_stage key g = Some st ->
+     is_member pton4 pton6 (combine cfgl (if key then key_expected (fst st) (snd st) else ENone)) client = false) ->
+  snd (update_handle_f pton4 pton6 bad_body store_fault key cfgl g client) = 0 /\
+  (fst (update_handle_f pton4 pton6 bad_body store_fault key cfgl g client) = HForbidden \/
+   fst (update_handle_f pton4 pton6 bad_body store_fault key cfgl g client) = HError).
+Proof. intros p4 p6 [A B]. exact (deny_before_change_update_f p4 p6 A B). Qed.
+Print Assumptions C05_deny_before_change_update_faults.
+
+Theorem C05_fail_closed_update_faults : forall pton4 pton6, pton_lengths pton4 pton6 ->
+  forall bad_body store_fault key cfgl g client, restricted key cfgl = true ->
+  snd (update_handle_f pton4 pton6 bad_body store_fault key cfgl g client) <> 0 ->
+  exists st, update_stage key g = Some st /\
+    is_member pton4 pton6 (combine cfgl (if key then key_expected (fst st) (snd st) else ENone)) client = true.
+Proof. intros p4 p6 [A B]. exact (fail_closed_update_f p4 p6 A B). Qed.
+Print Assumptions C05_fail_closed_update_faults.
+
+Theorem C05_failed_update_changes_nothing : forall pton4 pton6 bad_body store_fault key cfgl g client,
+  fst (update_handle_f pton4 pton6 bad_body store_fault key cfgl g client) <> HOk ->
+  snd (update_handle_f pton4 pton6 bad_body store_fault key cfgl g client) = 0.
+Proof. exact update_failure_changes_nothing. Qed.
+Print Assumptions C05_failed_update_changes_nothing.
+
 (* a non-member of a well-typed collection receives forbidden, or the error when the data source
    fails visibly: a function of the failure mode only *)
 Theorem C05_no_leak : forall pton4 pton6, pton_lengths pton4 pton6 -> forall cfg env client,
@@ -147,13 +176,14 @@ Example C05_nonvacuous_contains :
 Proof. vm_compute. auto. Qed.
 Definition ex_case (cl : list Match.entry) : case :=
   {| ckind := KFile; craise := false; centries := cl; cclient := ex_client; ckey := true; cact := AIgnore;
-     cnores := NRNotFound; ctemplate := false; clookup := true; cfind := FNone; cgetd := GRaise; cfs := FsContent;
+     cnores := NRNotFound; ctemplate := false; clookup := true; cfind := FNone; cgetd := GRaise; cfs := FsContent; cmethod_ok := true; cbad_body := false; cstore_fault := false;
      p4tab := ex_p4; p6tab := []; cref := Some false |}.
 (* unknown system, non-member: forbidden and no file access (not: not-found) *)
 Example C05_nonvacuous_handler :
   valid (ex_case [EStr ex_net25]) /\ run_model (ex_case [EStr ex_net25]) = {| ocode := 2; ocount := 0 |} /\
   run_model {| ckind := KFile; craise := false; centries := [EStr ex_net24]; cclient := ex_client; ckey := true;
                cact := AIgnore; cnores := NRNotFound; ctemplate := false; clookup := true; cfind := FNone;
-               cgetd := GRaise; cfs := FsContent; p4tab := ex_p4; p6tab := []; cref := None |}
+               cgetd := GRaise; cfs := FsContent; cmethod_ok := true; cbad_body := false; cstore_fault := false;
+               p4tab := ex_p4; p6tab := []; cref := None |}
     = {| ocode := 1; ocount := 0 |}.
 Proof. vm_compute. auto. Qed.
